@@ -1246,3 +1246,15 @@ package core
 //@   loop 4 invariant forall p *core.ForkSourcePart :: old(alloc(p)) ==> p.Id == old(p.Id)
 //@   loop 5 invariant forall p *core.ForkSourcePart :: old(alloc(p)) ==> p.Id == old(p.Id)
 //@   loop 6 invariant forall p *core.ForkSourcePart :: old(alloc(p)) ==> p.Id == old(p.Id)
+
+// ---------------------------------------------------------------- C11 distinct forks, distinct journal names
+// Over the contracts of Fork.updateId (journal name = call id + "." + Replace(encodeJournalName, fork id))
+// and ForkId.forkId (every map key is written, percent-escaped, "/"-separated): two forks of a
+// call nested in two map calls that differ in a key must get different journal names.
+// jenc/jpe/jid2: spec library journal.smt2.  The lemma FAILS on the unchanged tree (known
+// finding, not repaired): the separator "/" is turned into the same "%2F" that PathEscape
+// already produced for a "/" inside a key.
+//@ lemma journal_names_distinct property C11 uses journal : forall k1 string, k2 string, k3 string, k4 string :: jkey(k1) && jkey(k2) && jkey(k3) && jkey(k4) && len(k1) <= 8 && len(k2) <= 8 && len(k3) <= 8 && len(k4) <= 8 && (k1 != k3 || k2 != k4) ==> jenc(jid2(k1, k2)) != jenc(jid2(k3, k4))
+// The witness of that failure, as a (discharged) ground lemma: the forks with keys
+// ("a/fork_b", "c") and ("a", "b/fork_c") get the same journal name.
+//@ lemma journal_names_collide_witness property C11 uses journal : jid2("a/fork_b", "c") != jid2("a", "b/fork_c") && jenc(jid2("a/fork_b", "c")) == jenc(jid2("a", "b/fork_c"))
